@@ -14,14 +14,8 @@ TEXT = {
             "Lean 4 proof (reachability invariant over log+journal+disk, codec round-trip, GC suffix simulation) + differential correspondence"),
     "C02": ("Lean theorem C02_crash_atomic: for every state reachable from an empty directory (any calls, roll-overs, GC passes, restarts) at a call boundary with an empty BufWriter (flush-per-operation policy), for EVERY call in flight, EVERY prefix of its OS-level operations and EVERY byte cut of the write in progress (any buffer capacity / re-chunking; roll-over windows: next file absent, created empty, zero-filled; GC position entries; between any two unlinks), open of the crash image succeeds and the recovered queues agree with the state before the call or with the state after it on names, records (positions, payloads) and next positions (AbsEq = the C05 abstraction); C02_crash_atomic_exact: before the first unlink even the file handles agree; C02_second_crash(+_exact): the same for a crash during the effects of open itself. Hypotheses: entries serialise (C07.WF) and TornStep (a payload whose lost, zero-filled tail changed it fails its CRC = no collision). Usability after recovery: C02_resume (byte level, every cut), C02_recovered_usable_partial + clean_crash_points (the full invariant from which C01_restart_exact and this theorem derive is re-established at crash points that leave no torn remnant, no pre-created file and no partial unlink; for the others only the recovered queues are characterised) - that remaining part is enumerated by the crash campaign's continuation + restart oracle on the real library and the model. Finding recorded in DESIGN: between two unlinks, when an entry is longer than a whole WAL file, the recovered FILE HANDLE of its records can name an earlier file than live (safe side; not observable through records/positions).",
             "Lean 4 proof (reachability invariant + torn-tail scan on the multi-file tape + GC suffix at every intermediate first file) + crash-point enumeration, differential"),
-    "C03": ("Proved in Lean (partial): unlink_after_sync (+_open, +_split) — in the effects of every call and of open, every unlink is preceded "
-            "by flush, fsync(file), fsync(dir) with no write in between; persist points — create/delete end synced, persist(a) is exactly "
-            "its effects, Always(a)/due OnDelay(a) calls end flushed/synced; buffer_empty_of_flushedAtEnd and flush_then_unlink(_image) — "
-            "at a persist point nothing is left in the BufWriter and every OS-level unlink comes after all earlier writes. NOT yet proved: "
-            "that recovery from any image after the persist point yields a state at least as recent (needs the byte-level torn-tail "
-            "theorem, in progress); that part is enumerated: every crash image of generated histories under 7 policies is opened by the "
-            "real library and the model and judged by the prefix-state oracle with the last persist point as lower bound.",
-            "Lean 4 proof of the effect-order part + crash-point enumeration under 7 policies, differential"),
+    "C03": ("Lean theorems C03_durable (from any reachable persist point, for ANY run of calls under ANY policy and ANY buffering, roll-overs and GC included, a crash at any OS-operation prefix and byte cut recovers the state after SOME prefix of the calls - never older than the persist point, never a mixture; equality on names, records and next positions), C03_durable_after (if the BufWriter was empty after the first m calls and the crash comes later, at least those m calls are recovered), C03_power_loss (ordered-persistence model: after an fsync-ending call, every image containing that sync recovers at least that call), unlink_after_sync(+_open) and flush_then_unlink_image (no file is removed while superseding data is volatile), persist-point lemmas (create/delete/persist/Always/due OnDelay). Hypotheses: TornRun (no CRC collision on torn payloads), C07.WF. Always(FlushAndFsync) append/truncate as power-loss persist points are covered by always_persists + buffer_empty but not by a dedicated tail lemma. Tied to the code by the crash-policies campaign (7 policies, API-promised persist points as lower bounds, power-loss points = prefix up to the last fsync).",
+            "Lean 4 proof (multi-call crash cut on the reachability invariant) + crash-point enumeration under 7 policies, differential"),
     "C04": ("Lean theorems: the specification's next position never decreases within an incarnation and appended positions are fresh, "
             "consecutive and >= next (spec_next_mono, spec_append_fresh, spec_run_next_mono, spec_below_preserved), transferred to the model "
             "through the C05 refinement (C04_model_*). Restart/crash legs: C01 journal theorem + crash campaign oracle.",
@@ -45,8 +39,8 @@ TEXT = {
             "assemble_whole_entry (a delivered entry is the concatenation of a complete First..Last run with no error in between). The "
             "remaining link (a delivered frame is a genuine frame unless the CRC collides) is exercised by the damage campaign.",
             "Lean 4 proof over arbitrary images + damage enumeration, differential"),
-    "C09": ("Lean theorem C09_one_frame: for every stream of entries and every frame of it (any role: Full/First/Middle/Last, next to a block end or padding), replacing its checksum and/or payload bytes by arbitrary bytes of the same length that fail the check (explicit FrameDetected hypothesis = no CRC collision) makes the reader deliver exactly the other entries, in order, and stop where the writer stopped. The replay-level consequence (losing one entry never makes open fail nor costs a retained record of another entry) is enumerated by the aimed-damage campaign on the real library and the model.",
-            "Lean 4 proof (byte-level single-frame damage) + aimed damage enumeration, differential"),
+    "C09": ("Lean theorems C09_one_frame (byte level: with one frame's checksum/payload bytes replaced, any role, the reader delivers exactly the other entries, in order), C09_drop_one (replay level: for every reachable journal - any history, roll-overs, GC - erasing ANY one entry never makes the replay fail and every record of the live queues not appended by the erased entry is recovered with the same position and payload) and C09_end_to_end (their composition for journals in the first file). Hypothesis: FrameDetected (no CRC collision). Tied to the code by the aimed-damage campaign (retained-records-survive oracle) and raw reads through hook H4.",
+            "Lean 4 proof (byte-level single-frame damage + drop-one simulation over reachable journals) + aimed damage enumeration, differential"),
     "C10": ("Lean: recovery is a total function (no fuel); recover_no_panic / recover_no_panic_img: the panic-instrumented twin recoverP (checked u64 arithmetic of next_position, truncate_head, FileTracker::inc made explicit) never reports a panic for ANY image whose delivered entries carry no position 2^64-1 and whose file numbers leave room for the GC roll-overs, and the recovered queues are not poisoned (read accessors do not overflow); recover_buf_bounded (the reassembly buffer never exceeds the image size); ioCalls_bounded (no retry loop); witnesses truncate_max_panics / append_max_poisons / noMaxFiles_insufficient show the hypotheses are needed (finding F4). Partial: OS behaviour and the assert in RollingWriter::write are exercised by the damage/bytes/names campaigns under catch_unwind + watchdog, not proved.",
             "Lean 4 proof (panic-instrumented twin of recovery) + damage / crafted-input enumeration, differential"),
     "C11": ("Lean theorems io_reported / io_irrelevant_beyond / never_partial / fault_never_ok_on_bad_image / ioCalls_bounded: for every "
